@@ -36,6 +36,9 @@ def run(rep, tier):
     helper_tables(rep, F)
     wrap_tables(rep, F)
     small_tables(rep, F)
+    # every exact predicate this property rests on is a sign of the orientation kernel (rules shared with C03)
+    from . import c03 as _c03
+    _c03.kernel_rules(rep, F, "R14.11")
 
 
 def defaults(rep, F):
